@@ -1,4 +1,5 @@
 import PegVerif.Proofs.Positions
+import PegVerif.Proofs.NonVacuity
 /-
   C09 – `@position` ranges are exactly the byte span the rule consumed.
   Model: `ruleBody` in Eval.lean (range measured between the entry state – after the caller's
@@ -53,5 +54,85 @@ theorem C09_ordered {env : Env} {rec : Rec} (hrec : RecV ValIn rec) {ctx : Ctx} 
       rec.expr ctx p s g = some (.ok r1 t, g1) ∧ rec.expr ctx q t g1 = some (.ok r2 s', g') ∧
       s.off ≤ t.off ∧ t.off ≤ s'.off ∧ AllV (ValIn s.off t.off) r1 ∧ AllV (ValIn t.off s'.off) r2 :=
   C09_ordered_two hrec p q hg h
+
+/-! ## non-vacuity (BEGIN) -/
+namespace C09_nv
+open Peg.NV
+
+/-! instance: `@export @position S = first:Num {'+' rest:Num} | word:Word; @string @position @memoize Num = {'0'..'9'}+; …`
+    on `"1 + 23"` – the second `Num` is entered at offset 4, after the caller skipped the blank at offset 3 -/
+def envP : Env := envWith [.position] [.position, .memoize] default
+theorem hfS : envP.g.find "S" = some (.rule (ruleS [.position])) := rfl
+theorem hfN : envP.g.find "Num" = some (.rule (ruleNum [.position, .memoize])) := rfl
+theorem hext : ExternNoPos envP.hooks := fun _ _ _ _ _ _ h => by cases h
+
+/-- the run: nested ranges, children inside the parent, in input order -/
+example : show' (parseAdvanced envP 20 "S" inp1 0) =
+    some ("S { first: Some(Num { string: S\"31\", position: 0..1 }), rest: [Num { string: S\"3233\", position: 4..6 }], word: None, position: 0..6 }", 6) := by
+  decide +kernel
+
+/-- `C09_root` / `C09_nested_root` instantiated -/
+example : ∃ v s' g', parseAdvanced envP 20 "S" inp1 0 = some (.ok v s', g') ∧ s'.off = 6 ∧
+    (∃ fs, v = .node "S" fs (some (0, s'.off))) ∧ ValIn 0 s'.off v := by
+  obtain ⟨v, s', g', h, hp⟩ := ok_of (o := parseAdvanced envP 20 "S" inp1 0) (fun _ s _ => s.off == 6) (by decide)
+  exact ⟨v, s', g', h, by simpa using hp, (C09_root hfS rfl h).2 rfl (by decide), C09_nested_root hext h⟩
+
+/-! `C09_range` for `Num` entered at offset 4, twice: from the fresh global (body evaluated), and again from the global
+    that run left (answered from the cache, `CachePos` of that global comes from the first application) -/
+def s4 : St := ⟨inp1.drop 4, 4, none⟩
+theorem s4_wf : WfSt inp1 s4 := wf_of (by decide)
+theorem first_some : ((eval envP 20).rule "Num" s4 (Global.init 0)).isSome = true := by decide
+def g1 : Global := (((eval envP 20).rule "Num" s4 (Global.init 0)).get first_some).2
+example : (g1.lookup ("Num", 4)).isSome = true := by decide
+
+example : ∃ v s' g', (eval envP 20).rule "Num" s4 (Global.init 0) = some (.ok v s', g') ∧ g' = g1 ∧ s'.off = 6 ∧
+    v = .node "Num" [("string", .str (s4.sliceUntil s'))] (some (4, s'.off)) ∧
+    s4.sliceUntil s' = (inp1.drop 4).take (s'.off - 4) ∧ CachePos envP inp1 g' := by
+  obtain ⟨v, s', g', h, hp⟩ := ok_of (o := (eval envP 20).rule "Num" s4 (Global.init 0)) (fun _ s _ => s.off == 6) (by decide)
+  have hg1 : g' = g1 := by
+    have e := h.symm.trans (run_eq first_some)
+    simp only [Option.some.injEq, Prod.mk.injEq] at e; exact e.2
+  have h9 := Peg.C09_range hfN rfl h s4_wf (CachePos.init envP inp1 0)
+  have := (C09_range hfN rfl h s4_wf (CachePos.init envP inp1 0)).1 rfl
+  exact ⟨v, s', g', h, hg1, by simpa using hp, this.1, this.2, h9.2.2.2⟩
+
+theorem g1_pos : CachePos envP inp1 g1 := by
+  have h9 := Peg.C09_range hfN rfl (run_eq first_some) s4_wf (CachePos.init envP inp1 0)
+  exact h9.2.2.2
+example : ∃ v s' g', (eval envP 20).rule "Num" s4 g1 = some (.ok v s', g') ∧ hits g'.log = 1 ∧ s'.off = 6 ∧
+    v = .node "Num" [("string", .str (s4.sliceUntil s'))] (some (4, s'.off)) := by
+  obtain ⟨v, s', g', h, hp⟩ := ok_of (o := (eval envP 20).rule "Num" s4 g1) (fun _ s g => hits g.log == 1 && s.off == 6)
+    (by decide)
+  simp only [Bool.and_eq_true, beq_iff_eq] at hp
+  exact ⟨v, s', g', h, hp.1, hp.2, ((C09_range hfN rfl h s4_wf g1_pos).1 rfl).1⟩
+example : (match (eval envP 20).rule "Num" s4 g1 with
+    | some (.ok v _, _) => v.render == "Num { string: S\"3233\", position: 4..6 }" | _ => false) = true := by decide +kernel
+
+/-- `C09_offsets_monotone` / `C09_nested` for the same call, from the non-empty cache -/
+theorem g1_in : CacheIn g1 := (C09_nested_rule hext (run_eq first_some) (CacheIn.init 0)).2.2
+example : ∃ v s' g', (eval envP 20).rule "Num" s4 g1 = some (.ok v s', g') ∧ s4.off ≤ s'.off ∧ ValIn 4 s'.off v := by
+  obtain ⟨v, s', g', h, -⟩ := ok_of (o := (eval envP 20).rule "Num" s4 g1) (fun _ _ _ => true) (by decide)
+  exact ⟨v, s', g', h, C09_offsets_monotone h (fun n o v s hl => (g1_in n o v s hl).1), C09_nested hext h g1_in⟩
+
+/-- `C09_ordered`: the two parts `first:Num` and `{'+' rest:Num}` of the first alternative of `S` -/
+def ctxS : Ctx := ⟨true, ownFields envP (ruleS [.position]).definition⟩
+def p1 : Expr := .field (some (.ident "first")) false "Num"
+def p2 : Expr := .closure (.choice [.seq [lit '+', .field (some (.ident "rest")) false "Num"]]) false
+example : ∃ r1 t g1 r2 s' g', (eval envP 19).expr ctxS p1 (St.new inp1) (Global.init 0) = some (.ok r1 t, g1) ∧
+    (eval envP 19).expr ctxS p2 t g1 = some (.ok r2 s', g') ∧ t.off = 1 ∧ s'.off = 6 ∧
+    AllV (ValIn 0 t.off) r1 ∧ AllV (ValIn t.off s'.off) r2 := by
+  obtain ⟨x, s', g', h, hp⟩ := ok_of (o := evalSeq envP (eval envP 19) ctxS [p1, p2] [] [] (St.new inp1) (Global.init 0))
+    (fun _ s _ => s.off == 6) (by decide)
+  obtain ⟨r1, t, g1, r2, h1, h2, -, -, a1, a2⟩ :=
+    C09_ordered (eval_V ValPred.valIn envP hext 19) p1 p2 (CacheIn.init 0) h
+  have ht : t.off = 1 := by
+    obtain ⟨_, t', _, h1', ht'⟩ := ok_of (o := (eval envP 19).expr ctxS p1 (St.new inp1) (Global.init 0))
+      (fun _ s _ => s.off == 1) (by decide)
+    rw [h1] at h1'; simp only [Option.some.injEq, Prod.mk.injEq, Res.ok.injEq] at h1'
+    rw [h1'.1.2]; simpa using ht'
+  exact ⟨r1, t, g1, r2, s', g', h1, h2, ht, by simpa using hp, a1, a2⟩
+
+end C09_nv
+/-! ## non-vacuity (END) -/
 
 end Peg.Props
